@@ -1,8 +1,11 @@
 import TinsModel.Dns.Spec
+import TinsModel.Dns.Soa
 import Driver.Util
 /- line-protocol driver for property C10 (DNS): model mode and spec (oracle) mode.
    Ops:  new | parse <hex> [@V Q=.. AN=.. AU=.. AD=.. | @E <getter>] | addq <name> <type> <class>
-         | adda/addu/addd <name> <type> <class> <ttl> <pref> <data> [4.<hex>|6.<hex>|x] | reparse | ser -/
+         | adda/addu/addd <name> <type> <class> <ttl> <pref> <data> [4.<hex>|6.<hex>|x] | reparse | ser
+         | soa <hex> [@V <expected>]   soa_record(buffer, size) on its own (a case of its own)
+         | soas                        soa_record(resource) on every SOA record the three record getters hand out -/
 namespace Driver.C10
 open Driver Tins Tins.Dns
 
@@ -11,6 +14,7 @@ def excName : Exc → String
   | .pointerLoops => "dns_decompression_pointer_loops"
   | .pointerOob => "dns_decompression_pointer_out_of_bounds"
   | .invalidAddress => "invalid_address"
+  | .invalidDomainName => "invalid_domain_name"
 
 def showQuery (q : Query) : String := s!"{toHex q.name}:{q.type}:{q.cls}"
 
@@ -29,6 +33,22 @@ def showOut {α} (f : α → String) : Out (List α) → String
 
 def showState (res : String) (m : Msg) : String :=
   s!"{res} h={m.q},{m.an},{m.au},{m.ad} i={m.ai},{m.ui},{m.di} r={toHex m.recs} Q={showOut showQuery (queries m)} AN={showOut showResource (answers m)} AU={showOut showResource (authority m)} AD={showOut showResource (additional m)}"
+
+/-- the seven fields of a decoded SOA record, or the exception -/
+def showSoa : Out Soa → String
+  | .ok r => s!"ok:{toHex r.mname}:{toHex r.rname}:{r.serial}:{r.refresh}:{r.retry}:{r.expire}:{r.minimum}"
+  | .throw e => "throw:" ++ excName e
+  | .fault s => "MODEL-FAULT:" ++ s
+
+/-- `soa_record(const DNS::resource&)` on every record of type SOA of a section -/
+def soasOf (rs : Out (List Resource)) : String :=
+  match rs with
+  | .ok xs => showList ((xs.filter (fun r => r.type == tSOA)).map (fun r =>
+      match r.data with
+      | .str b => showSoa (soaInit b)
+      | .v6 _ => "MODEL-FAULT:soa-data"))
+  | .throw e => "!" ++ excName e
+  | .fault s => "MODEL-FAULT:" ++ s
 
 def parseAux (s : String) : Option Bytes :=
   if s.startsWith "4." || s.startsWith "6." then parseHex (s.drop 2).toString else none
@@ -79,6 +99,11 @@ def step (m : Msg) (line : String) : Msg × String :=
     | .throw e => (m, showState ("throw:" ++ excName e) m)
     | .fault s => (m, "MODEL-FAULT:" ++ s)
   | "ser" :: _ => (m, "ser " ++ toHex (serialize m))
+  | "soa" :: h :: _ =>
+    match parseHex h with
+    | some b => (m, "soa " ++ showSoa (soaInit b))
+    | none => (m, "bad-op")
+  | "soas" :: _ => (m, s!"soas AN={soasOf (answers m)} AU={soasOf (authority m)} AD={soasOf (additional m)}")
   | op :: rest =>
     match secOf op, parseNewRec rest with
     | some sec, some r => applyOut m (addRecord m sec r)
@@ -146,6 +171,19 @@ def specStep (st : OState) (line : String) : OState × String :=
       | some e => (st, checkObs e "ok" ow)
       | none => (st, "unspecified")
     | "ser" :: _ => (st, if st.exp.isSome then "ok" else "unspecified")
+    | "soa" :: _ :: rest =>
+      -- a typed accessor: a value, malformed_packet or invalid_domain_name; with `@V` (a reference encoding of a
+      -- record with legal names) exactly the record
+      let r := (ow.drop 1).head?.getD ""
+      match rest with
+      | "@V" :: e :: _ => (st, if ow.head? == some "soa" && r == e then "ok" else s!"violates soa-roundtrip expected={e} got={r}")
+      | _ =>
+        if ow.head? == some "soa" && (r.startsWith "ok:" || r == "throw:malformed_packet" || r == "throw:invalid_domain_name")
+        then (st, "ok") else (st, s!"violates soa-outcome {r}")
+    | "soas" :: _ =>
+      let bad := (out.splitOn "throw:").drop 1 |>.filter (fun t =>
+        !(t.startsWith "malformed_packet" || t.startsWith "invalid_domain_name"))
+      (st, if ow.head? == some "soas" && bad.isEmpty then "ok" else "violates soas-outcome")
     | o :: rest =>
       match st.exp, secOf o, parseNewRec rest with
       | some (q, an, au, ad), some sec, some r =>
